@@ -99,6 +99,9 @@ def judge(ctx, f, what, term, want_dim, space=T.ZERO, time=T.ZERO, key=None):
 
 def run(ctx):
     repo = ctx.repo
+    rules.borrow(ctx, "C13", funcs=["forsys.fmatrix.ForceMatrix.set_velocity_matrix", "forsys.time_series.TimeSeries.calculate_velocity"], minimum=10, because="the adimensional right-hand side is the raw velocity over the raw mean speed (a rounded copy is not unit-free)")
+    rules.borrow(ctx, "C02", funcs=["forsys.fmatrix.ForceMatrix._build_matrix", "forsys.fmatrix.ForceMatrix.get_vertex_equation"], minimum=8, because="which junctions get equations must not depend on the orientation of the axes")
+    rules.borrow(ctx, "C16", funcs=["forsys.fmatrix.ForceMatrix.get_angle_limited_edges"], minimum=3, because="the opening angle that excludes interfaces is a rotation invariant of the tangents")
     ctx.config("static; dynamic with b_matrix='velocity', adimensional_velocity=True; pressures with method='lagrange_pressure'; cm=False; externals_to_use=[]")
     ctx.trust("transfer: calculate_circle_center(points) is a point of the plane (dimension L, translation weight 1)")
     ctx.trust("transfer table for numpy callables: " + ", ".join(sorted(rules.BASIC_AFF_CALLS)))
